@@ -310,6 +310,61 @@ func VerifH_SemDeadContext() {
 	symx.Reach("end")
 }
 
+// C01/H0: every map has the rwRatio it was constructed with - a symbolic ratio given to an earlier
+// constructor (single or sharded) does not leak into a later one built with its own ratio or with the
+// default: exactly ratio readers are admitted at once, the next one waits until a reader releases.
+func VerifH_SemRatioPerMap() {
+	r1 := symx.Concrete(symx.Int("earlierRatio"), 1, 12)
+	var first SemMapper
+	switch symx.Concrete(symx.Int("earlierKind"), 0, 2) {
+	case 0:
+		first = NewSemMap(WithRwRatio(r1))
+	case 1:
+		first = NewWideSemMap(WithRwRatio(r1), WithPrime(2))
+	case 2:
+		first = NewWideXHashSemMap(WithRwRatio(r1), WithPrime(3))
+	}
+	_ = first
+	want := DefaultRWRatio
+	var m SemMapper
+	useDefault := symx.Bool("laterUsesDefault")
+	wide := symx.Bool("laterIsSharded")
+	switch {
+	case useDefault && wide:
+		m = NewWideSemMap()
+	case useDefault:
+		m = NewSemMap()
+	default:
+		want = symx.Concrete(symx.Int("laterRatio"), 1, 3)
+		if wide {
+			m = NewWideSemMap(WithRwRatio(want), WithPrime(2))
+		} else {
+			m = NewSemMap(WithRwRatio(want))
+		}
+	}
+	ctx := context.Background()
+	key := 5
+	held := make([]*Weighted, 0, want)
+	for i := 0; i < want; i++ {
+		w, err := m.AcquireRead(ctx, key)
+		symx.Assert(err == nil && w != nil, "up to rwRatio readers are admitted at once")
+		held = append(held, w)
+	}
+	var extra *Weighted
+	t := symx.Go("oneMore", func() { extra, _ = m.AcquireRead(ctx, key) })
+	symx.WaitQuiescent()
+	symx.Assert(symx.Blocked(t), "at most rwRatio readers hold a key: the next one waits")
+	m.ReleaseRead(key, held[0])
+	symx.WaitQuiescent()
+	symx.MustFinish(t, "and is admitted when a reader releases")
+	m.ReleaseRead(key, extra)
+	for _, w := range held[1:] {
+		m.ReleaseRead(key, w)
+	}
+	symx.Assert(verifEntries(m) == 0, "no residue")
+	symx.Reach("end")
+}
+
 // C01/H2d: key independence: a held key never blocks another key.
 func VerifH_SemKeys() {
 	ratio := symx.Param("ratio", 2)
